@@ -120,9 +120,10 @@ fn one(id: u64, v: &Value, seed: u64) -> Vec<Value> {
         if let Err(TestCaseError::MalformedOutput(d)) = &result {
             for dl in &d.lines {
                 match dl {
-                    scrut::diff::DiffLine::UnmatchedExpectation { expectation, .. } => {
+                    scrut::diff::DiffLine::UnmatchedExpectation { expectation, index } => {
                         unmatched_pretty.push(expectation.to_expression_string(&escaping).trim_end().to_string());
-                        unmatched_diff.push(expectation.original_string());
+                        // the diff renderer shows the expectation line as it was WRITTEN (not what the parsed object reports)
+                        unmatched_diff.push(c.exp_texts.get(*index).cloned().unwrap_or_else(|| expectation.original_string()));
                     }
                     scrut::diff::DiffLine::UnexpectedLines { lines } => for (_, l) in lines {
                         let mut shown = l.clone();
